@@ -9,16 +9,29 @@ from gen_programs import Gen, Scope
 
 PID = "C02"
 MANIFEST = {
-    "text": "3 Coq theorems for the 'no effect on values' half (an expression without a direct assignment leaves the "
-            "scope chain exactly as it was; no evaluation changes an existing binding; function-cell names are "
-            "write-once), for every depth and — the first two — every operator/built-in implementation.  PARTIAL: "
-            "determinism across processes, hash seeds and earlier evaluations is a property of the running code that no "
-            "Gallina function can fail; it is decided by running the same generated programs in several processes and "
-            "with a dirtied heap and comparing with the (deterministic) model; evaluate-twice and let-abstraction are "
-            "decided by search on the implementation",
+    "text": "13 Coq theorems.  'No effect on values' at full strength over the evaluator model: STORE-EXTENSION INVARIANCE "
+            "(a simulation over every expression form, FunctionDef::call and every depth: evaluating from a store related "
+            "by an injective renaming of function-cell indices gives the renamed outcome, scope chain and a related store; "
+            "generic in operators/built-ins that commute with renamings, discharged arm by arm for the transcribed "
+            "operators and the built-ins of EvalInst.v); NO EVALUATION WRITES TO A FUNCTION CELL THAT EXISTED BEFORE IT "
+            "(also for the full built-in dispatcher; this is what the repair of finding F52 — an assignment names a lambda "
+            "only if evaluating its right-hand side created it — made true); hence EVAL-TWICE without side condition on "
+            "names (an expression without a direct assignment evaluated again gives the same outcome class and the same "
+            "value up to the indices of the cells the evaluation itself allocated; exact shift form; `equals v1 v2 = "
+            "equals v1 v1`), the only hypothesis being a scope chain without dangling cells.  LET-ABSTRACTION is proved for "
+            "head contexts and cell-free values (PARTIAL; the statement for arbitrary contexts / several occurrences is "
+            "kept as the Prop C02_let_abstraction_full), and the renaming hypothesis for the FULL built-in dispatcher "
+            "(EvalFull.builtin_full: list/string/aggregate built-ins, sort_by/group_by/count_by) is kept as the Prop "
+            "C02_ops_commute_full (eval-twice for that dispatcher is proved relative to it) — for those the clause is "
+            "decided by search.  Older theorems: purity of the scope chain, existing bindings untouched, store only grows.  "
+            "PARTIAL by nature: determinism across processes, hash seeds and earlier evaluations is a property of the "
+            "running code that no Gallina function can fail; it is decided by running the same generated programs in "
+            "several processes and with a dirtied heap and comparing with the (deterministic) model; evaluate-twice and "
+            "let-abstraction are ALSO searched on the implementation, incl. the boundary shapes of F52 (naming an existing "
+            "anonymous function from a do-block / callback), strict in the implementation-level law and against the model",
     "note": "trusted: Coq kernel + vm_compute; evaluator transcription validated by the EVAL stream; the runtime "
             "behaviour the model cannot exhibit (HashMap iteration order, allocation order) is explored, not proved",
-    "design_ref": "DESIGN.md section 6 C02",
+    "design_ref": "DESIGN.md section 6 C02; notes/C02.md",
 }
 
 HOLES = ["(%s)", "[%s, 2]", "[...[%s], 0]", "{k: %s}.k", "(q9 => q9)(%s)", "([1, 2] via (q9 => [q9, %s]))", "do {\n  w9 = %s\n  return w9\n}",
@@ -54,6 +67,20 @@ def wide_builtin_programs():
         "group_by(map(range(0, 40), i => {k: to_string(i % 11), v: i}), r => r.k)",
     ]
     return ["w9 = %s\n[to_string(w9), to_string(w9) == to_string(%s)]" % (e, e) for e in exprs]
+
+
+def open_known_c02():
+    """open known findings of C02: known_findings.json (generated by tools/mkmanifest.py) united with the fragment
+    known/C02.json it is generated from, so that the check does not depend on the generated file being fresh"""
+    import json
+    import os
+    es_ = {e["id"]: e for e in c.open_known(PID)}
+    frag = os.path.join(os.path.dirname(os.path.dirname(os.path.abspath(__file__))), "known", "C02.json")
+    if os.path.exists(frag):
+        for e in json.load(open(frag)):
+            if e.get("status") == "open":
+                es_.setdefault(e["id"], e)
+    return list(es_.values())
 
 
 def strip_names(s):
@@ -241,6 +268,15 @@ def main(argv):
             var = "t9fresh = " + sub + "\n" + (hole % (("t9fresh",) * nh))
             twice = "[%s, %s]\n[%s]" % (orig, orig, orig)
             pairs.append((orig, var, twice, sub))
+    # closures WITH captured values: two evaluations give two cells with equal contents; equality, unique, includes
+    # and the unchecked orderings must not see the cell (Coq: C02_equals_blind_to_cells)
+    for sub in ("(x => x + k9)", "[1, y => [y, k9]]", "{f: () => k9}"):
+        for hole in OHOLES:
+            nh = hole.count("%s")
+            orig = "k9 = 3\n" + (hole % ((sub,) * nh))
+            var = "k9 = 3\nt9fresh = " + sub + "\n" + (hole % (("t9fresh",) * nh))
+            e9 = hole % ((sub,) * nh)
+            pairs.append((orig, var, "k9 = 3\n[%s, %s]\n[%s]" % (e9, e9, e9), sub))
     for sub, pre in (("do {\n  return n9 = n9 + 1\n}", "n9 = 0\n"), ("do {\n  return k9 = 5\n}", ""),
                      ("(() => m9 = 1)()", ""), ("do {\n  t9 = 2\n  return t9 * 2\n}", "")):
         orig = pre + sub
@@ -278,7 +314,77 @@ def main(argv):
                                   {"kind": "impl-law", "program": t, "observed": [vt[-2], vt[-1]]})
     res.streams["LET-TWICE"] = {"pairs": n_let, "let_checked": let_checked, "let_violations": let_viol,
                                 "twice_checked": twice_checked, "twice_violations": twice_viol, "holes": len(HOLES)}
-    res.coverage["evaluations"] = n_prog * (nproc + 1) + len(flat) + 2 * cli_n
+
+    # ---------------- (d) the boundary the eval-twice theorem singles out (hypothesis old_names_kept):
+    # an expression that NAMES a function cell which existed before it and had no name yet.  Class F52 (known
+    # finding): the assigned name is one the function's body resolves dynamically; every other shape must agree.
+    PRES = [("fs9 = [x => x + y9]\ny9 = 5", "fs9[0]", True), ("r9 = {f: x => x + y9}\ny9 = 5", "r9.f", True),
+            ("mk9 = () => [x => x + y9]\nfs9 = mk9()\ny9 = 5", "fs9[0]", True),
+            ("f9 = x => x + y9\nfs9 = [f9]\ny9 = 5", "fs9[0]", False),          # already named: nothing to rename
+            ("y9 = 5\nfs9 = [x => x + y9]", "fs9[0]", False)]                   # y9 captured: the self name does not shadow it
+    NAMERS = ["do {\n  %s = %s\n  return 0\n}", "(() => do {\n  %s = %s\n  return 0\n})()",
+              "map([0], q9 => do {\n  %s = %s\n  return 0\n})[0]", "([0] via (q9 => do {\n  %s = %s\n  return 0\n}))[0]"]
+    SHAPES = ["[%(use)s, %(namer)s]", "[%(namer)s, %(use)s]", "{a: %(use)s, b: %(namer)s}.a", "(%(use)s) + (%(namer)s)",
+              "if (%(namer)s) == 0 then %(use)s else 0"]
+    nb_progs, nb_meta = [], []
+    for pre, acc, unnamed in PRES:
+        for namer in NAMERS:
+            for name in ("y9", "z9"):
+                for shape in SHAPES:
+                    e_ = shape % {"use": "%s(1)" % acc, "namer": namer % (name, acc)}
+                    nb_progs.append("%s\nt1 = %s\nt2 = %s" % (pre, e_, e_))
+                    nb_meta.append((unnamed and name == "y9", pre.count("\n") + 3))
+    for e9 in ("[(x => x + k9) == (x => x + k9)]", "(x => x + k9) .== (x => x + k9)",
+               "len(unique([(x => x + k9), (x => x + k9)]))", "includes([(x => x + k9)], (x => x + k9))",
+               "[ugte((x => x + k9), (x => x + k9)), [y => k9] == [y => k9]]"):
+        nb_progs.append("k9 = 3\nt1 = %s\nt2 = %s" % (e9, e9))
+        nb_meta.append((False, 3))
+    nb_out = es.rust_eval(h, nb_progs)
+    f52_open = any(e_["id"] == "F52" for e_ in open_known_c02())
+    nb_known = nb_viol = nb_checked = 0
+    nb_t1_ok = 0
+    for p_, (known_class, n_stmts), o_ in zip(nb_progs, nb_meta, nb_out):
+        parts = o_.split(";ENV:")[0].split("|")
+        if len(parts) != n_stmts:          # the run stopped before t2: t1 (or the prefix) failed, nothing to compare
+            continue
+        nb_t1_ok += 1
+        nb_checked += 1
+        a_, b_ = strip_names(parts[-2]), strip_names(parts[-1])
+        # t1 must succeed for the law to apply (first evaluation Ok); then t2 must be the same
+        if a_.startswith("OK") and a_ != b_:
+            if known_class and f52_open:
+                nb_known += 1
+            else:
+                nb_viol += 1
+                if nb_viol <= 3:
+                    res.violation("evaluating the same expression again gave a different result (naming boundary)",
+                                  {"kind": "impl-law", "program": p_, "observed": [parts[-2], parts[-1]],
+                                   "expected": "the statements t1 and t2 give the same result"})
+    # the model reproduces the boundary exactly (correspondence on the shapes outside the known class; the F52
+    # shapes are counted but not diffed, so that a repair of F52 does not raise an alarm here)
+    nb_agree = nb_mism = 0
+    try:
+        stride = 2 if tier == "quick" else 1
+        # while F52 is open its class is counted, not diffed; once it is fixed the whole family is strict, in
+        # the implementation-level law above AND against the (repaired) model
+        sel = [p_ for p_, k_ in zip(nb_progs[:-5], nb_meta[:-5]) if not (k_[0] and f52_open)][::stride] + nb_progs[-5:]
+        selo = [o_ for o_, k_ in zip(nb_out[:-5], nb_meta[:-5]) if not (k_[0] and f52_open)][::stride] + nb_out[-5:]
+        coq2, _ = es.parse_to_coq(h, sel)
+        model2 = es.model_eval(coq2, tag="c02nb")
+        nb_agree, mism2, _, _ = es.compare(sel, selo, model2)
+        nb_mism = len(mism2)
+        if mism2:
+            i2, r2_, m2_ = mism2[0]
+            res.tie_broken("correspondence C02/NAMING: model and implementation disagree on %d programs" % len(mism2),
+                           "first: %r\nimpl : %s\nmodel: %s" % (sel[i2], r2_, m2_))
+    except c.BrokenTie as e:
+        res.tie_broken(e.what, e.detail)
+    res.streams["NAMING-BOUNDARY"] = {"programs": len(nb_progs), "checked": nb_checked, "in_class_F52": sum(1 for k_ in nb_meta if k_[0]), "F52_open": f52_open, "t1_succeeded": nb_t1_ok,
+                                      "differ_known_F52": nb_known, "violations": nb_viol,
+                                      "model_agree": nb_agree, "model_mismatch": nb_mism,
+                                      "distribution": {"pre_shapes": len(PRES), "namers": len(NAMERS), "names": 2,
+                                                       "expression_shapes": len(SHAPES)}}
+    res.coverage["evaluations"] = n_prog * (nproc + 1) + len(flat) + 2 * cli_n + len(nb_progs)
     res.coverage["distinct_nontrivial"] = len({r for r in runs[0] if "OK:" in r}) + let_checked
     res.coverage["rule"] = ("generated well-scoped programs (typed generator, scope tracking) each run in %d separate "
                             "processes + once more after unrelated evaluations in the same process + the model; %d "
@@ -287,8 +393,21 @@ def main(argv):
                             "with a successful statement + abstraction pairs actually compared" % (nproc, n_let, len(HOLES)))
     res.coverage["samples"] = [{"program": pairs[i][0], "variant": pairs[i][1]} for i in (0, 1, 2)]
     res.coverage["traces_validated_against_impl"] = agree
-    for e in c.open_known(PID):
-        res.known("%s %s" % (e["id"], e["what"]))
+    # F52 once fixed: its witness stays a regression input; a reappearance is a violation
+    if not f52_open:
+        w52 = "fs = [x => x + y]\ny = 5\nt1 = [fs[0](1), do { y = fs[0]; return 0 }]\nt2 = [fs[0](1), do { y = fs[0]; return 0 }]"
+        wo = es.rust_eval(h, [w52])[0].split(";ENV:")[0].split("|")
+        if not (len(wo) == 4 and wo[-2].startswith("OK") and strip_names(wo[-2]) == strip_names(wo[-1])):
+            res.violation("evaluating the same expression again gave a different result (F52 reappeared: an assignment "
+                          "names a function that existed before it)",
+                          {"kind": "impl-law", "program": w52, "observed": wo[-2:], "expected": "t1 and t2 both [6, 0]"})
+    for e in open_known_c02():
+        suffix = ""
+        if e["id"] == "F52":
+            wo = es.rust_eval(h, [e["witness"]])[0].split(";ENV:")[0].split("|")
+            if len(wo) >= 2 and strip_names(wo[-2]) == strip_names(wo[-1]):
+                suffix = " (no longer reproduces)"
+        res.known("%s %s%s" % (e["id"], e["what"], suffix))
     return res.finish()
 
 
